@@ -113,7 +113,7 @@ def scrub (v : Bytes) : Bytes := v.map (fun b => if b.toNat ≤ 31 then 32 else 
 def response101 (accept subprotocol : Bytes) (compress : Bool) (rh : RespHdr) : Bytes :=
   strBytes "HTTP/1.1 101 Switching Protocols\r\nUpgrade: websocket\r\nConnection: Upgrade\r\nSec-WebSocket-Accept: "
     ++ accept ++ crlf ++
-  (if subprotocol.isEmpty then [] else strBytes "Sec-WebSocket-Protocol: " ++ subprotocol ++ crlf) ++
+  (if subprotocol.isEmpty then [] else strBytes "Sec-WebSocket-Protocol: " ++ scrub subprotocol ++ crlf) ++
   (if compress then strBytes "Sec-WebSocket-Extensions: permessage-deflate; server_no_context_takeover; client_no_context_takeover\r\n" else []) ++
   (match rh with
    | none => []
